@@ -1,4 +1,5 @@
-//! The client side on real sockets and runtimes (C06, C11): a chain of calls sent through a zlink connection
+//! The client side on real sockets and runtimes (C06; the item-holding mode written for C11 is not registered as a
+//! check, see DESIGN.md 6.1 "consequences for the oracles": read boundaries cannot be controlled on a real socket): a chain of calls sent through a zlink connection
 //! over the tokio / smol transport to a peer that is a plain blocking `UnixStream` on its own thread and
 //! plays a scripted service — it reads the calls off the socket, then writes the scripted replies in pieces.
 //!
